@@ -437,3 +437,87 @@ def sample_segments(trace_path, k=3, maxlen=12):
     for s, e in segs[::step][:k]:
         out.append(e[:maxlen])
     return out
+
+
+# --------------------------------------------------------------------------- binding self-test
+OBS_KEYS = ("obs", "result", "runs", "out", "files", "counters", "rt", "code", "verdict", "levels", "usedLimit")
+
+
+def _corrupt(node, rng, keys):
+    """find numeric / boolean leaves under observation keys; flip one. returns path or None"""
+    leaves = []
+
+    def walk(x, path, under):
+        if isinstance(x, dict):
+            for k, v in x.items():
+                walk(v, path + [k], under or k in keys)
+        elif isinstance(x, list):
+            if under and x and all(isinstance(v, str) for v in x):
+                leaves.append((path, "strlist"))
+            for i, v in enumerate(x):
+                walk(v, path + [i], under)
+        elif under and isinstance(x, bool):
+            leaves.append((path, "bool"))
+        elif under and isinstance(x, int):
+            leaves.append((path, "int"))
+    walk(node, [], False)
+    if not leaves:
+        return None
+    path, kind = leaves[rng.randrange(len(leaves))]
+    cur = node
+    for k in path[:-1]:
+        cur = cur[k]
+    if kind == "bool":
+        cur[path[-1]] = not cur[path[-1]]
+    elif kind == "strlist":
+        cur[path[-1]] = cur[path[-1]][1:]          # drop one element of an observed set
+    else:
+        cur[path[-1]] = cur[path[-1]] + 1
+    return "/".join(str(k) for k in path)
+
+
+def binding_selftest(scratch, family, module, cfg, trace_path, verdict, keys=None, seed=1, tries=6):
+    """Take accepted segments, corrupt one observed field in one event, and require TLC to reject.
+    Some corruptions are legitimately acceptable (a nondeterministic spec allows several results), so a few
+    different corruptions are tried; 'not-rejected' only if none of them is rejected."""
+    import random, copy
+    rng = random.Random(seed * 7919 + 17)
+    keys = tuple(keys or OBS_KEYS)
+    events = load_trace(trace_path)
+    segs = segments(events)
+    failed_starts = set(f["start"] for f in verdict.failed)
+    good = [sg for sg in segs if sg[0] not in failed_starts and len(sg[1]) >= 2]
+    if not good:
+        return {"status": "skipped", "why": "no accepted segment"}
+    attempts = []
+    for _ in range(tries):
+        s0, evs = good[rng.randrange(len(good))]
+        evs = copy.deepcopy(evs)
+        idxs = list(range(1, len(evs)))
+        rng.shuffle(idxs)
+        where = None
+        for i in idxs:
+            where = _corrupt(evs[i], rng, keys)
+            if where:
+                where = "event %d (%s): %s" % (i, evs[i].get("op"), where)
+                break
+        if not where:
+            continue
+        p = os.path.join(scratch, "selftest.ndjson")
+        with open(p, "w") as f:
+            for e in evs:
+                f.write(json.dumps(e) + "\n")
+        try:
+            r = run_tlc(scratch, family, module, cfg, env={"VERIF_TRACE": p}, workers=1, timeout=300)
+        except MachineryError as ex:
+            return {"status": "skipped", "why": "tlc: %s" % str(ex)[:100]}
+        if r.error:
+            # an evaluation error on a corrupted value (e.g. a type confusion) also means "not accepted"
+            return {"status": "rejected", "corrupted": where, "how": "evaluation error"}
+        ok = any(re.match(r'^<<"SEG_OK", 1>>', ln) for ln in r.printed)
+        attempts.append(where)
+        if not ok:
+            return {"status": "rejected", "corrupted": where, "tried": len(attempts)}
+    if not attempts:
+        return {"status": "skipped", "why": "no observed numeric/boolean field found under keys %s" % (keys,)}
+    return {"status": "not-rejected", "corrupted": attempts}
